@@ -137,6 +137,10 @@ int cp_ecies_dec(uint8_t *out, size_t *out_len, const ec_t r, const uint8_t *in,
 		}
 		bn_write_bin(_x, l, x);
 		md_kdf(key, 2 * size, _x, l);
+		if (in_len < RLC_MD_LEN) {
+			/* Too short to even hold the authentication tag. */
+			RLC_THROW(ERR_NO_VALID);
+		}
 		md_hmac(h, in, in_len - RLC_MD_LEN, key + size, size);
 		if (util_cmp_sec(h, in + in_len - RLC_MD_LEN, RLC_MD_LEN)) {
 			result = RLC_ERR;
